@@ -1624,7 +1624,7 @@ def select__fold_left(self: XPathFunction, context: ta.ContextType = None) \
 
     zero = self.get_argument(context, index=1)
 
-    result = zero
+    result = [] if zero is None else zero  # an empty $zero is the empty sequence, not None
     for item in self[0].select(context):
         result = func(result, item, context=context)
 
@@ -1649,7 +1649,7 @@ def select__fold_right(self: XPathFunction, context: ta.ContextType = None) \
 
     zero = self.get_argument(context, index=1)
 
-    result = zero
+    result = [] if zero is None else zero  # an empty $zero is the empty sequence, not None
     sequence = [x for x in self[0].select(context)]
 
     for item in reversed(sequence):
